@@ -76,7 +76,7 @@ def check(ctx):
         ok = bool(find(pat, f)) or bool(find(pat.replace("(vchunks, hchunks)", "vchunks, hchunks"), f))
         ctx.ob("DELEG.chunks", f, f"{fn}: {pat}", ok)
     ey = mod.func("eye")
-    ok = any("shape=(N, M)" in unparse(r.value) and "chunks=(chunks, chunks)" in unparse(r.value) for r in returns(ey)) and bool(find("chunks = vchunks[0]", ey))
+    ok = (all("shape=(N, M)" in unparse(r.value) and "chunks=(chunks, chunks)" in unparse(r.value) for r in returns(ey)) and bool(returns(ey))) and bool(find("chunks = vchunks[0]", ey))
     ctx.ob("DELEG.chunks.eye", ey, "eye declares shape (N, M) with the uniform block size it generated blocks for", ok)
     n = check_pairs(ctx, pairs_for("C34"))
     ctx.count("twin_pairs", n)
